@@ -34,6 +34,16 @@ pub mod arraydeque {
                 i < self.view().len() ==> r == Some(&self.view()[i as int]),
                 i >= self.view().len() ==> r.is_none(),
         { unimplemented!() }
+        #[verifier::external_body]
+        pub fn is_empty(&self) -> (r: bool)
+            ensures r == (self.view().len() == 0),
+        { unimplemented!() }
+        #[verifier::external_body]
+        pub fn pop_front(&mut self) -> (r: Option<T>)
+            ensures
+                old(self).view().len() == 0 ==> r.is_none() && final(self).view() == old(self).view(),
+                old(self).view().len() > 0 ==> r == Some(old(self).view()[0]) && final(self).view() == old(self).view().drop_first(),
+        { unimplemented!() }
         // push_back (Wrapping semantics are only relevant when full; extra_waiting has capacity N)
         #[verifier::external_body]
         pub fn push_back(&mut self, x: T) -> (r: Option<T>)
@@ -79,6 +89,16 @@ pub struct KeyCode { p: u16 }
 //@ item keyberon/src/layout.rs const QUEUE_SIZE
 //@ item keyberon/src/layout.rs type QueueLen
 //@ item keyberon/src/layout.rs type PressedQueue
+//@ item keyberon/src/layout.rs struct Queued
+//@@ keep-vis
+//@@ no-derives
+//@ item keyberon/src/layout.rs type Queue
+//@ item keyberon/src/layout.rs const ACTION_QUEUE_LEN
+//@ item keyberon/src/layout.rs type Delay
+//@ item keyberon/src/layout.rs type QueuedAction
+//@ item keyberon/src/layout.rs type ActionQueue
+//@ item keyberon/src/layout.rs enum WaitingAction
+//@@ keep-vis
 //@ item keyberon/src/layout.rs const EXTRA_WAITING_LEN
 //@ item keyberon/src/layout.rs const MAX_ACTIVE_LAYERS
 //@ item keyberon/src/layout.rs type LayerStack
@@ -180,9 +200,10 @@ pub ghost struct DoCall<'a, T> {
 //@@ keep-vis
 //@@ attr #[verifier::reject_recursive_types(T)]
 //@@ resub Rbound 1 /T: 'a \+ std::fmt::Debug,/ => `T: 'a,`
-//@@ keep-fields waiting extra_waiting tap_dance_eager oneshot last_press_tracker rpt_action quick_tap_hold_timeout
+//@@ keep-fields waiting extra_waiting tap_dance_eager queue oneshot last_press_tracker action_queue rpt_action quick_tap_hold_timeout
 //@@ add-field pub verif_calls: Ghost<Seq<DoCall<'a, T>>>
 //@@ add-field pub verif_events: Ghost<Seq<Event>>
+//@@ add-field pub verif_dequeued: Ghost<Seq<Queued>>
 //@@ add-field pub verif_post_oneshot: Ghost<OneShotState>
 
 //@ raw
@@ -221,6 +242,7 @@ impl<'a, const C: usize, const R: usize, T: 'a + Copy> Layout<'a, C, R, T> {
             // ghost: the one-shot table it leaves behind (whatever that is)
             final(self).verif_post_oneshot@ == final(self).oneshot,
             final(self).verif_events@ == old(self).verif_events@,
+            final(self).verif_dequeued@ == old(self).verif_dequeued@,
     { unimplemented!() }
     /// Layout::event: NOT under contract (on a full queue it forces pending keys into hold); recorded
     #[verifier::external_body]
@@ -268,6 +290,7 @@ spec fn decision_call<'a, T>(w: WaitingState<'a, T>, chosen: &'a Action<'a, T>, 
         // ASSUMPTION (u16 arithmetic): the press-to-decision delay fits
         waiting_at(old(self).waiting, old(self).extra_waiting@, idx) matches Some(w) ==> decided_delay(w) <= u16::MAX,
     ensures
+        final(self).verif_dequeued@ == old(self).verif_dequeued@,
         // nothing is waiting at idx: nothing happens
         waiting_at(old(self).waiting, old(self).extra_waiting@, idx) is None ==>
             r is NoEvent && final(self).verif_calls@ == old(self).verif_calls@
@@ -286,6 +309,7 @@ spec fn decision_call<'a, T>(w: WaitingState<'a, T>, chosen: &'a Action<'a, T>, 
     requires
         waiting_at(old(self).waiting, old(self).extra_waiting@, idx) matches Some(w) ==> decided_delay(w) <= u16::MAX,
     ensures
+        final(self).verif_dequeued@ == old(self).verif_dequeued@,
         waiting_at(old(self).waiting, old(self).extra_waiting@, idx) is None ==>
             r is NoEvent && final(self).verif_calls@ == old(self).verif_calls@
             && final(self).waiting == old(self).waiting && final(self).extra_waiting@ == old(self).extra_waiting@,
@@ -298,6 +322,7 @@ spec fn decision_call<'a, T>(w: WaitingState<'a, T>, chosen: &'a Action<'a, T>, 
 //@@ ret r
 //@@ spec
     ensures
+        final(self).verif_dequeued@ == old(self).verif_dequeued@,
         // NoOp: the press is dropped without any action
         r is NoEvent, final(self).waiting is None, final(self).verif_calls@ == old(self).verif_calls@,
         final(self).extra_waiting@ == old(self).extra_waiting@,
@@ -355,6 +380,7 @@ proof fn lemma_sigs_push<'a, T>(cs: Seq<DoCall<'a, T>>, c: DoCall<'a, T>)
     requires
         waiting_at(old(self).waiting, old(self).extra_waiting@, idx) matches Some(w) ==> decided_delay(w) <= u16::MAX,
     ensures
+        final(self).verif_dequeued@ == old(self).verif_dequeued@,
         waiting_at(old(self).waiting, old(self).extra_waiting@, idx) is None ==>
             r is NoEvent && final(self).verif_calls@ == old(self).verif_calls@
             && final(self).waiting == old(self).waiting && final(self).extra_waiting@ == old(self).extra_waiting@,
@@ -382,6 +408,7 @@ proof fn lemma_sigs_push<'a, T>(cs: Seq<DoCall<'a, T>>, c: DoCall<'a, T>)
     proof { assert(cs.subrange(0, cs.len() as int) =~= cs); }
 //@@ loop-at `match tap {`
                         invariant
+                            self.verif_dequeued@ == old(self).verif_dequeued@,
                             itc.seq() == cs, 0 <= itc.index@ <= cs.len(), 0 <= n0, first.len() == n0 + 1,
                             self.verif_calls@.len() == n0 + 1 + itc.index@,
                             self.verif_calls@.subrange(0, n0 + 1) == first,
@@ -400,6 +427,7 @@ proof fn lemma_sigs_push<'a, T>(cs: Seq<DoCall<'a, T>>, c: DoCall<'a, T>)
     }
 //@@ loop-at `Action::MultipleActions(acs) => {`
                         invariant
+                            self.verif_dequeued@ == old(self).verif_dequeued@,
                             ita.seq().len() == acs@.len(), cs == pq@, 0 <= ita.index@ <= acs@.len(),
                             forall|i: int| 0 <= i < acs@.len() ==> *(#[trigger] ita.seq()[i]) == acs@[i],
                             self.verif_calls@.len() >= n0 + 1, 0 <= n0, first.len() == n0 + 1,
@@ -416,6 +444,7 @@ proof fn lemma_sigs_push<'a, T>(cs: Seq<DoCall<'a, T>>, c: DoCall<'a, T>)
     }
 //@@ loop-at `if matches!(`
                                 invariant
+                            self.verif_dequeued@ == old(self).verif_dequeued@,
                                     itc.seq() == cs, 0 <= itc.index@ <= cs.len(), 0 <= n0, first.len() == n0 + 1,
                                     0 <= ita.index@ < acs@.len(),
                                     self.verif_calls@.len() >= n0 + 1,
@@ -609,3 +638,78 @@ fn do_action_one_shot(&mut self, action: &'a Action<'a, T>, coord: KCoord, delay
         }),
 //@@ after-re 1 /let custom =\s*self\.do_action\([^;]*\);/
     proof { assert(self.verif_calls@.subrange(0, old(self).verif_calls@.len() as int) =~= old(self).verif_calls@); }
+
+// ---------------------------------------------------------------------------------------
+// Layout::tick, the dispatch of a decision (a FRAGMENT: the `match &mut self.waiting { .. }`
+// expression handed to custom.update).  C05: the ONE method matching the decision runs - Hold ->
+// waiting_into_hold, Tap -> waiting_into_tap, Timeout -> waiting_into_timeout, NoOp -> drop; no
+// decision yet -> nothing; and while a key is undecided the input queue is NOT dequeued.
+// ---------------------------------------------------------------------------------------
+//@ raw
+/// WaitingState::tick_wt: the DECISION.  Bounded Kani harnesses (c05_b_*, c17_b_*) decide it on the
+/// real code; here it is a deterministic stub: its result and what it leaves in the waiting state
+/// are uninterpreted functions of what it was given.
+pub uninterp spec fn decide<'a, T>(w: WaitingState<'a, T>, q: Seq<Queued>, aq: Seq<QueuedAction<'a, T>>) -> Option<(WaitingAction, Option<PressedQueue>)>;
+pub uninterp spec fn ticked<'a, T>(w: WaitingState<'a, T>, q: Seq<Queued>, aq: Seq<QueuedAction<'a, T>>) -> WaitingState<'a, T>;
+impl<'a, T> WaitingState<'a, T> {
+    #[verifier::external_body]
+    fn tick_wt(&mut self, queued: &mut Queue, action_queue: &mut ActionQueue<'a, T>) -> (r: Option<(WaitingAction, Option<PressedQueue>)>)
+        ensures
+            r == decide(*old(self), old(queued)@, old(action_queue)@),
+            *final(self) == ticked(*old(self), old(queued)@, old(action_queue)@),
+    { unimplemented!() }
+}
+impl<'a, const C: usize, const R: usize, T: 'a + Copy> Layout<'a, C, R, T> {
+    /// Layout::dequeue: NOT under contract; recorded
+    #[verifier::external_body]
+    fn dequeue(&mut self, queue: Queued) -> (r: CustomEvent<'a, T>)
+        ensures
+            final(self).verif_dequeued@ == old(self).verif_dequeued@.push(queue),
+            final(self).verif_calls@ == old(self).verif_calls@,
+    { unimplemented!() }
+}
+
+//@ fragment keyberon/src/layout.rs fn tick in `Layout<'a, C, R, T>` block-after `custom.update(match &mut self.waiting {` as tick_dispatch
+//@@ wrap impl<'a, const C: usize, const R: usize, T: 'a + Copy> Layout<'a, C, R, T>
+//@@ header
+fn tick_dispatch(&mut self) -> CustomEvent<'a, T>
+//@@ prefix
+    match &mut self.waiting {
+//@@ tail
+    }
+//@@ ret r
+//@@ spec
+    requires
+        // u16 arithmetic of the waiting_into_* methods, see there
+        old(self).waiting matches Some(w) ==> decided_delay(ticked(w, old(self).queue@, old(self).action_queue@)) <= u16::MAX,
+    ensures
+        // a key is undecided: its decision function runs once; nothing is dequeued; and
+        old(self).waiting matches Some(w0) ==> {
+            let d = decide(w0, old(self).queue@, old(self).action_queue@);
+            let w = ticked(w0, old(self).queue@, old(self).action_queue@);
+            let n0 = old(self).verif_calls@.len() as int;
+            let calls = final(self).verif_calls@;
+            &&& final(self).verif_dequeued@ == old(self).verif_dequeued@
+            // no decision yet: no action, the key stays undecided (as its tick left it)
+            &&& d is None ==> calls == old(self).verif_calls@ && final(self).waiting == Some(w) && r is NoEvent
+            // Hold -> exactly the hold action; Timeout -> exactly the timeout action
+            &&& (d matches Some(dd) && dd.0 is Hold) ==> calls == old(self).verif_calls@.push(decision_call(w, w.hold, Some(w), old(self).extra_waiting@, -1i8))
+            &&& (d matches Some(dd) && dd.0 is Timeout) ==> calls == old(self).verif_calls@.push(decision_call(w, w.timeout_action, Some(w), old(self).extra_waiting@, -1i8))
+            // Tap -> the tap action first (then only the chord repeats)
+            &&& (d matches Some(dd) && dd.0 is Tap) ==> calls.len() >= n0 + 1
+                    && calls.subrange(0, n0 + 1) == old(self).verif_calls@.push(decision_call(w, w.tap, Some(w), old(self).extra_waiting@, -1i8))
+                    && sigs(calls.subrange(n0 + 1, calls.len() as int)) == repeats(*w.tap, d.unwrap().1, decided_delay(w) as u16)
+            // NoOp -> the press is dropped: no action, nothing undecided
+            &&& (d matches Some(dd) && dd.0 is NoOp) ==> calls == old(self).verif_calls@ && final(self).waiting is None
+        },
+        // nothing undecided in the primary slot: no decision is executed here
+        old(self).waiting is None ==> final(self).verif_calls@ == old(self).verif_calls@,
+        // and input is taken from the queue only if no concurrent tap-hold is pending either and the
+        // one-shot pause has run out: then exactly the oldest queued event
+        old(self).waiting is None ==> {
+            if old(self).extra_waiting@.len() == 0 && old(self).oneshot.pause_input_processing_ticks == 0 && old(self).queue@.len() > 0 {
+                final(self).verif_dequeued@ == old(self).verif_dequeued@.push(old(self).queue@[0])
+            } else {
+                final(self).verif_dequeued@ == old(self).verif_dequeued@
+            }
+        },
